@@ -208,7 +208,30 @@ func runEnum(c *core.Ctx) []core.Obligation {
 				}
 			}
 		}
-		if len(ors) == 0 {
+		// a setter that assigns a constant instead of combining it with the old flags clobbers every
+		// other option (UseNumber followed by DisallowUnknownFields forgets UseNumber)
+		assigned := ""
+		for _, blk := range fn.Blocks {
+			for _, in := range blk.Instrs {
+				st, ok := in.(*ssa.Store)
+				if !ok {
+					continue
+				}
+				fa, ok := st.Addr.(*ssa.FieldAddr)
+				if !ok || fieldNameOf(fa) != "flags" {
+					continue
+				}
+				if k, isK := constInt(st.Val); isK {
+					assigned = fmt.Sprintf("assigns the constant %#x to the flags", k)
+				}
+			}
+		}
+		if len(ors) == 0 && assigned == "" {
+			continue
+		}
+		if assigned != "" {
+			key := "enum:json-option:" + strings.TrimPrefix(rt, "*") + "." + fn.Name()
+			b.addP(props, core.Violation, key, c.FuncPos(fn), fmt.Sprintf("%s.%s %s instead of or-ing its bit into them: every option set earlier on the same value is lost (UseNumber then DisallowUnknownFields decodes numbers as float64)", rt, fn.Name(), assigned))
 			continue
 		}
 		mname := fn.Name()
